@@ -338,7 +338,7 @@ func caseClasses(s *seq, res *runResult) []string {
 		set["config:"+st.Kind] = true
 		if i > 0 {
 			set["gap:"+st.GapCls] = true
-			if (st.At/second+1)*second%interval == 0 {
+			if st.Stamped {
 				set["update-stamped-at-scheduled-instant"] = true
 			}
 		}
